@@ -150,3 +150,21 @@ func vh_C35_node_range() {
 	vAssert(SlotToNode(totalSlots-1, n) == n-1, "last-slot-on-last-node")
 	vCover(node == n-1, "last-node")
 }
+
+// C35c'': the node mapping IS the even contiguous split, stated without
+// SlotToNode's own case split: for every cluster size n in [1, c35_contig_n]
+// (one path per n) and EVERY slot (symbolic), the node j = SlotToNode(slot, n)
+// satisfies j*sn + min(j,r) <= slot < (j+1)*sn + min(j+1,r), with
+// sn = 16384/n and r = 16384%n (the first r nodes own one slot more).
+func vh_C35_node_contiguous() {
+	n := 1 + vChoice("n_minus_1", vParam("c35_contig_n", 64))
+	slot := int(vU16("slot"))
+	vAssume(slot < totalSlots)
+	node := SlotToNode(slot, n)
+	vAssert(vAnd(node >= 0, node < n), "node-index-in-range")
+	sn, r := totalSlots/n, totalSlots%n
+	start := node*sn + vIteInt(node < r, node, r)
+	end := (node+1)*sn + vIteInt(node+1 < r, node+1, r)
+	vAssert(vAnd(start <= slot, slot < end), "slot-inside-the-contiguous-range-of-its-node")
+	vCover(n == 13, "thirteen-nodes")
+}
